@@ -29,6 +29,8 @@ var props = map[string]func(*Ctx){
 	"C13": propC13,
 	"C14": propC14,
 	"C17": propC17,
+	"C19": propC19,
+	"C20": propC20,
 }
 
 type multiFlag []string
